@@ -123,8 +123,11 @@ func TestC07(t *testing.T) {
 					err error
 				}
 				ch := make(chan rr, 1)
+				before := fixture.CountGoroutines("protocol/surveyor.(*context).RecvMsg")
 				go func() { b, err := c.c.Recv(); ch <- rr{b, err} }()
-				time.Sleep(5 * time.Millisecond)
+				// wait until the Recv is really waiting inside the library (else, after 1 s, go on:
+				// the late-start case is told apart below)
+				fixture.WaitGoroutines(before+1, time.Second, "protocol/surveyor.(*context).RecvMsg")
 				oldID := c.cur
 				logf("recvAsync(ctx%d)", ci)
 				doSurvey(ci, c)
